@@ -110,6 +110,45 @@ T["C18"] = ("Lean theorems for all images and managed configs of the model, both
   "disabled mode is the identity, idempotence. Tied on every run by the complete post-state of the real descriptor after bufimagemodify.Modify on generated images x managed configs (incl. buf.gen.yaml v1/v2 text)",
   "Partial: for a FieldOptions parent location only the upper bound of the sweep is proved; default formulas, casing helpers, WKT list and YAML->rules translation are correspondence-only; trusted: Lean kernel; Managed model tied by correspondence")
 
+T["C03"] = ("Lean theorems, one per rule id (all 62 modelled ids), stated on ARBITRARY schema pairs (hypotheses constrain only the edited element, so unrelated surrounding changes are covered by construction), each APPLIED in an "
+  "example on one witness pair carrying every edit family: deletions (fields/enum values with the reservation variants, messages, enums, extensions, services, RPCs, oneofs, files, packages incl. the last element of a package), "
+  "type / wire / wire+JSON group changes incl. the type NAME of message- and group/delimited-encoded fields and message_encoding flips, cardinality, name, JSON name, oneof, default, enum closedness, RPC request/response/"
+  "streaming/idempotency, file package, syntax and the 16 tracked file options; the conclusion is Reports id a cur prev for EVERY category in which the rule is active (rules_active: decide over tables regenerated from /repo), "
+  "and the annotation's source path resolves to the edited element (located_*). Tied by an 89-operator edit catalogue planted, stratified, at every KIND of field (scalar, message, enum, group, delimited by field feature / "
+  "inherited, map, oneof member, proto3 optional, extension, packed/expanded) in proto2 / proto3 / editions files through the real Client.Breaking",
+  "Partial: annotation message text and against-file are oracle-only (Ann carries neither); the enum-subset branch of the wire rules and the multiplicity for rules other than FIELD_NO_DELETE are correspondence-only; 2 custom-feature "
+  "rules oracle-only; trusted: Lean kernel, Schema/Breaking models tied by correspondence, protocompile")
+
+T["C04"] = ("Lean theorems for all schema pairs of the model: a well-formed schema compared with itself is clean in every category and config version; the only-adds relation is a formal catalogue of source edits (SchemaEdit.sound, "
+  "additive_edits_clean), reflexive, transitive and clean, hence every later version of an additive chain against every earlier one (the closed-enum first-value exception is additive_first_enum_value_counterexample); "
+  "cosmetic edits are invisible; the hierarchy FILE => PACKAGE => WIRE_JSON => WIRE holds for ALL pairs from per-rule implication lemmas plus decide-theorems over the category and compatibility-group tables regenerated "
+  "from /repo on every run. Tied by generated schemas and edit chains — including 16-27-file images under parallelism 2 and 3 with permuted file order, so the chunked bufprotosource.NewFiles path runs — compiled with buf's "
+  "builder and checked by the real Client.Breaking per category, single rule and config version",
+  "Trusted: Lean kernel; Schema/Breaking models tied by correspondence (62 of 64 rule ids modelled; 2 custom-feature rules oracle-only); WF/KindsOK hypotheses evaluated by the driver per line; protocompile as parameter")
+
+T["C06"] = ("Lean theorems for all use/except/ignore/ignore_only/comment configurations: rule selection is set algebra through the regenerated rule tables, unknown ids rejected, deprecated ids denote their replacements, category "
+  "nesting MINIMAL<=BASIC<=STANDARD and DEFAULT=STANDARD by decide over the tables regenerated from the live specs (3 config versions); the resolved configuration is characterised from the lists the USER wrote "
+  "(resolved_config_spec), report = union over selected rules minus exactly the suppressed annotations, adding ignore / ignore_only / except / a comment never adds an annotation and removes only annotations in its scope "
+  "(user_suppression_monotone/_scoped, adding_*_monotone/_scoped, comments by element identity so line shifts are covered), imports never reported; which buf.yaml section applies (workspace vs module level, empty vs "
+  "absent, single-key sections: yaml_*). Tied on every run by the real bufcheck.Client under thousands of generated configurations, by comment ignores planted on every kind of enclosing construct (135 annotated-kind x "
+  "comment-position classes x 7 spellings) and by buf.yaml TEXT through the real reader for v1beta1/v1/v2 at workspace and module level",
+  "Trusted: Lean kernel; Rules model tied by correspondence; rule handlers are parameters; the scope of a comment is the documented one (the element and its descriptor-tree parents); 3 recorded findings (group field, "
+  "second extend block, leak from the first extend block); table translator harness/cmd/c06gen")
+
+T["C20"] = ("Lean theorems: exit status is 0 iff nothing to report, 100 iff the problem is in the user's sources, another non-zero otherwise — over a model of Go error VALUES through handleFileAnnotationSetRetError / the check "
+  "loop / wrapError / the app exit-code mapping as coded (under StepsOK, each clause shown necessary by a counterexample) and for all 16 `buf format` flag combinations; de-duplication drops only annotations equal on all "
+  "seven key fields and the sorted list is independent of input order; DECODER statements per format (formats_decode: parsing the printed text gives back the projected annotation list, for text / msvs / github-actions / "
+  "json / junit, with the exact side conditions text_decode_iff / msvs_decode_iff) and the cross-format corollary (any two formats agree, in order, on every field both carry); one-line formats stay one line for any text. "
+  "Tied on every run by generated annotation sets through the real printers (decoded by the Lean decoders and by independent Go decoders), by real error values fed through the code extracted from the working tree, and by "
+  "about a thousand runs of the real buf binary (lint / breaking / build / format in every mode, dep graph for import-not-found) on generated workspaces with planted problems",
+  "Trusted: Lean kernel; Annot model tied by correspondence; encoding/json and encoding/xml escaping are library (decoded on every case); a failing write of the annotations is not modelled")
+
+T["C08"] = ("Lean theorems for all file sets and dependency lists of the model: manifest text round-trips and is injective, the digest is a function of the module-file set (any walk order, non-module files ignored, dep order "
+  "irrelevant), and — under the explicit hypothesis that the hash does not collide on the strings compared — differs whenever module files or dependency digests differ, for b5 AND b4 (b4_sensitive) and through module "
+  "sets (moduleSet_sensitive: a changed file of a transitive local dependency changes every dependant's digest; moduleDigest_fuel_any_numbering); module-file matcher constants are regenerated from /repo and pinned by a "
+  "decide-theorem. Tied on every run by generated file sets across memory/disk/tar/shuffled-walk backends, perturbations, and an independent SHAKE256 recomputation of the published b5 construction",
+  "Trusted: Lean kernel; Manifest/Digest model tied by correspondence; hash H is a parameter (table computed by Go); SHAKE256 collision resistance is a hypothesis; ModuleDeps resolution is an input")
+
 
 def main():
     p = "/verif/MANIFEST.json"
